@@ -414,3 +414,22 @@ Proof.
   split; [reflexivity|]. split; [apply c_var_t|]. split; [apply c_eom_sq_t|]. split; [apply c_wmean_t|].
   split; [apply c_perr_sq_t|]. split; [apply c_cov_some|apply c_cov_none].
 Qed.
+
+(** a propagation k * a + c after any selector history reads the selected statistics *)
+Lemma propagation_lemma xs ss ops k c :
+  let r := sel_run ops (rmv_new xs ss) in
+  lin_value k c r == k * spec_value xs ss ops + c /\ lin_err_sq k r == k * k * spec_err_sq xs ss ops.
+Proof.
+  cbv zeta. destruct (selectors_lemma xs ss ops) as (E1 & E2 & _).
+  unfold lin_value, lin_err_sq. now rewrite E1, E2.
+Qed.
+
+Lemma rmv_make_some xs ss :
+  length xs = length ss -> Forall (fun s => 0 <= s) ss -> rmv_make xs ss = Some (rmv_new xs ss).
+Proof.
+  intros E H. unfold rmv_make. rewrite (proj2 (Nat.eqb_eq _ _) E). simpl.
+  assert (F : forallb (fun e => Qle_bool 0 e) ss = true).
+  { clear E. induction H as [|s ss Hs _ IH]; simpl; [reflexivity|].
+    rewrite IH, andb_true_r. now apply Qle_bool_iff. }
+  now rewrite F.
+Qed.
